@@ -45,6 +45,8 @@ def run(prog: Program, rep: Report):
     if gens:
         chunking_idiom(prog, rep, "C05.R6", gens[0], "chunking", data_expr=gens[0].params[0] if gens[0].params else None)
     r7_input(prog, rep, fm, mp)
+    from .ownership import rule_no_class_state
+    rule_no_class_state(prog, rep, "C05.R8", [fm, fw, fr])
 
 
 def r1_tags(prog, rep: Report, fw: Cls, fr: Cls):
@@ -241,6 +243,23 @@ def r4_sorted(prog, rep: Report, mp: Func):
     rep.fn(mp)
     rets = returns_of(mp.node)
     ok, why = False, "no return"
+    def _sorted_values(v) -> bool:
+        if isinstance(v, ast.ListComp) and len(v.generators) == 1 and not v.generators[0].ifs:
+            g = v.generators[0]
+            it = g.iter
+            if isinstance(it, ast.Call) and src(it.func) == "sorted" and it.args and isinstance(g.target, ast.Tuple) and len(g.target.elts) == 2:
+                key = next((k.value for k in it.keywords if k.arg == "key"), None)
+                rev = next((k.value for k in it.keywords if k.arg == "reverse"), None)
+                key_ok = key is None or (isinstance(key, ast.Lambda) and isinstance(key.body, ast.Subscript)
+                                         and const_value(key.body.slice) == 0)
+                return key_ok and src(v.elt) == src(g.target.elts[1]) and (rev is None or const_value(rev) is False)
+        return False
+    if len(rets) > 1:
+        others = [r for r in rets if r.value is None or not _sorted_values(r.value)]
+        ok = not others
+        if others:
+            why = (f"{len(rets)} return statements; `{src(others[0])}` at line {others[0].lineno} does not return the values sorted by "
+                   "their input index (it hands back the internal (index, value) pairs or nothing)")
     if len(rets) == 1:
         v = rets[0].value
         why = f"`{src(v)}` is not [value for index, value in sorted(pairs, key=index)]"
@@ -302,6 +321,19 @@ def r5_shutdown(prog, rep: Report, fm: Cls, mp: Func):
     rep.check("C05.R5", mp, "joins", join_i is not None and sent_i is not None and join_i > sent_i,
               "every worker joined after the sentinels", "mul_p_map does not join its workers after sending the sentinels",
               scenario="worker processes are left running after the call returned")
+    # all paths: once the workers run, nothing leaves the function before the sentinels were sent and the workers joined
+    start_i = next((i for i, st in enumerate(body) if any(isinstance(c, ast.Call) and isinstance(c.func, ast.Attribute)
+                                                          and c.func.attr == "start" for c in ast.walk(st))), None)
+    early = []
+    if start_i is not None and join_i is not None:
+        for st in body[start_i + 1:join_i]:
+            early += [x for x in ast.walk(st) if isinstance(x, (ast.Return, ast.Raise))]
+    rep.check("C05.R5", mp, "no-early-exit", start_i is not None and join_i is not None and not early,
+              "no return/raise between starting the workers and joining them",
+              f"mul_p_map can leave at line {early[0].lineno if early else '?'} after the workers were started, without sending the "
+              "sentinels and joining them",
+              scenario="mul_p_map(f, []) leaves its workers alive on the shared class-level queues: they take items and sentinels of "
+                       "the next call (results of the old f, or a hang in join())", line=early[0].lineno if early else None)
     rep.check("C05.R5", mp, "join-after-drain", join_i is not None and drain_i is not None and join_i > drain_i,
               "workers are joined only after every owed result was collected",
               "the workers are joined before the remaining results were taken from the results queue: a worker that still has "
